@@ -23,7 +23,8 @@ from harness.impl import corpus, exprgen
 META = {
     "driver": "drv_total",
     "ops": "option",
-    "translators": ["options"],
+    "translators": ["options", "conj", "decl", "doccells", "elision", "coordconsts", "number"],
+    "extra_modules": ["Pyrealb.Props.C07Compose"],
     "technique": "Lean 4 proof of the warn/exception discipline and option-setter decision logic + exhaustive option "
                  "correspondence + grammar-based exploration of the public API (valid and malformed streams)",
     "level_text": "Kernel-checked: for every computation that reads exceptionOnWarning only inside warn, the flagged run raises "
@@ -32,7 +33,9 @@ META = {
                   "of the table regenerated from Constituent.py. Tie: all options x 25 receiver types x values against the real "
                   "methods (exhaustive); both disciplines tested on every generated expression (flag off/on).",
     "level_note": "PARTIAL: totality of the steps themselves (that construction and realization never raise) is proved only for the "
-                  "component models of C01/C02/C06/C09/C10/C11/C12/C16/C17 under their WF hypotheses; for whole expressions it is "
+                  "component models — collected in Props/C07Compose.components_total: conjugation, declension, elision, "
+                  "coordination, number spelling, each under its WF hypothesis (dates: C17.dateFormat_total_partial; "
+                  "formatting/JSON/store: their own Props); for whole expressions it is "
                   "explored by the grammar-based generator (valid + malformed streams) and the repository's test expressions, and "
                   "the crash sites found on the unchanged tree are listed as known findings (signature = exception type + file + "
                   "function + source line).",
